@@ -5,11 +5,12 @@ PATCH="$(readlink -f "$1")"; PROP="$2"; RUNS="${3:-1500}"
 SCR="$(mktemp -d /dev/shm/dsim-mutant-XXXXXX)"
 trap 'rm -rf "$SCR"' EXIT
 rsync -a --exclude .git --exclude docs --exclude '*.pyc' --exclude __pycache__ /repo/ "$SCR/"
-( cd "$SCR" && patch -p1 -s < "$PATCH" )
+# exact context only: a patch that needs fuzz may land in another place (it is rebased by hand instead)
+( cd "$SCR" && git apply --whitespace=nowarn "$PATCH" ) || { echo "PATCH-DOES-NOT-APPLY-EXACTLY $PATCH"; echo "exit=3"; exit 0; }
 cd "$(dirname "$0")/.."
 set +e
 DSIM_REPO="$SCR" DSIM_EVIDENCE_DIR="$SCR/evidence" DSIM_NO_FRESH=1 ./check "$PROP" --runs "$RUNS" > "$SCR/out.txt" 2>&1
 RC=$?
-grep -E "^\[|signature|VIOLATION|HARNESS|OK property" "$SCR/out.txt" | cut -c1-260 | head -12
+grep -E "^\[|signature|VIOLATION|HARNESS|OK property" "$SCR/out.txt" | cut -c1-260 | head -40
 echo "exit=$RC"
 exit 0
